@@ -91,6 +91,11 @@ func precisionOf(v *obs.View, batchKey uint64) int {
 
 // checkAmount validates one stored credit amount; returns "" or a complaint.
 func checkAmount(s string, prec int) string {
+	if s == "" {
+		// the proto3 default of the amount fields: rows imported from a genesis file may leave a zero
+		// column empty (the module's ValidateGenesis accepts it, every reader parses it as 0) — read as 0
+		return ""
+	}
 	r, places, _, err := ref.ParseDec(s)
 	if err != nil {
 		return fmt.Sprintf("stored amount %q is not a decimal: %v", s, err)
